@@ -90,13 +90,15 @@ func outputTupleDir(v rel.Value, dir string, fs afero.Fs, dryRun bool) error {
 	if err != nil {
 		return err
 	}
-	if _, err := fs.Stat(dir); os.IsNotExist(err) {
+	if fi, err := fs.Stat(dir); os.IsNotExist(err) {
 		// the dry run only validates; it must leave the filesystem untouched
 		if !dryRun {
 			if err := fs.Mkdir(dir, 0755); err != nil {
 				return err
 			}
 		}
+	} else if err == nil && !fi.IsDir() {
+		return fmt.Errorf("%s exists and is not a directory", dir)
 	}
 
 	// this is to allow empty directory
@@ -151,6 +153,10 @@ func outputFile(content rel.Value, path string, fs afero.Fs, dryRun bool) error 
 			return fmt.Errorf("file output not string or byte array: %v", content)
 		}
 		bytes = []byte{}
+	}
+
+	if fi, err := fs.Stat(path); err == nil && fi.IsDir() {
+		return fmt.Errorf("%s exists and is a directory", path)
 	}
 
 	if dryRun {
